@@ -5,6 +5,11 @@ function, or the same function tests membership in the same alphabet (`c in X`, 
 import ast
 
 
+def is_sentinel(e):
+    return (isinstance(e, ast.UnaryOp) and isinstance(e.op, ast.USub) and isinstance(e.operand, ast.Constant) and e.operand.value == 1) or \
+           (isinstance(e, ast.Constant) and e.value in (0, -1) and not isinstance(e.value, bool))
+
+
 def sentinel_sites(mod):
     """-> (find calls inspected, [(qualname, call)])"""
     hits, n = [], 0
@@ -31,10 +36,17 @@ def sentinel_sites(mod):
             elif isinstance(p, ast.NamedExpr) and isinstance(p.target, ast.Name):
                 names.add(p.target.id)
 
-            def is_sentinel(e):
-                return (isinstance(e, ast.UnaryOp) and isinstance(e.op, ast.USub) and isinstance(e.operand, ast.Constant) and e.operand.value == 1) or \
-                       (isinstance(e, ast.Constant) and e.value in (0, -1) and not isinstance(e.value, bool))
             checked = False
+            # `values = [X.find(c) for c in s]` ... `if -1 in values: raise`: the sentinel is looked for in the collected results
+            holder = p
+            while holder is not None and not isinstance(holder, (ast.Assign, ast.stmt)):
+                holder = parents.get(holder)
+            coll = {t.id for t in holder.targets if isinstance(t, ast.Name)} if isinstance(holder, ast.Assign) else set()
+            if isinstance(p, ast.Call) and isinstance(p.func, ast.Attribute) and p.func.attr in ("append", "add") and isinstance(p.func.value, ast.Name) and c in p.args:
+                coll.add(p.func.value.id)  # the accumulator loop a comprehension is read as
+            for x in compares:
+                if any(isinstance(o, (ast.In, ast.NotIn)) for o in x.ops) and is_sentinel(x.left) and any(isinstance(k, ast.Name) and k.id in coll for k in x.comparators):
+                    checked = True
             for x in compares:
                 sides = [x.left] + list(x.comparators)
                 if any(is_sentinel(s) for s in sides) and any(s is c or (isinstance(s, ast.Name) and s.id in names) for s in sides):
